@@ -80,11 +80,14 @@ class SimLock(object):
         while not self._real.acquire(False):
             if not blocking:
                 return False
-            s._blocked_on_lock(s.current, sys._getframe(1))
+            s._blocked_on_lock(s.current, sys._getframe(1), self)
         return True
 
     def release(self):
         self._real.release()
+        s = ACTIVE[0]
+        if s is not None:
+            s.unblock(self)
 
     def locked(self):
         return self._real.locked() if hasattr(self._real, 'locked') else False
@@ -112,6 +115,9 @@ class SimEvent(object):
 
     def set(self):
         self._flag = True
+        s = ACTIVE[0]
+        if s is not None:
+            s.unblock(self)
 
     def clear(self):
         self._flag = False
@@ -126,12 +132,123 @@ class SimEvent(object):
             if timeout is not None and n > 200:
                 return False
             try:
-                s._blocked_on_lock(s.current, sys._getframe(1))
+                s._blocked_on_lock(s.current, sys._getframe(1), self if timeout is None else None)
             except RuntimeError:
                 if timeout is not None:
                     return False
                 raise
         return True
+
+
+def _sim_wait(predicate, timeout, frame, resource=None):
+    """hand the baton on until predicate() holds; True if it does, False on (simulated) timeout"""
+    s = ACTIVE[0]
+    if s is None or s.current is None or threading.current_thread().name != 'sim-%d' % s.current:
+        return predicate()
+    n = 0
+    while not predicate():
+        n += 1
+        if timeout is not None and n > 200:
+            return False
+        try:
+            s._blocked_on_lock(s.current, frame, resource if timeout is None else None)
+        except RuntimeError:
+            if timeout is not None:
+                return False
+            raise
+    return True
+
+
+class SimSemaphore(object):
+    """threading.Semaphore / BoundedSemaphore for the system under test (never blocks the baton holder)"""
+
+    def __init__(self, value=1, bounded=False):
+        self._value = value
+        self._initial = value
+        self._bounded = bounded
+
+    def acquire(self, blocking=True, timeout=None):
+        if self._value <= 0:
+            if not blocking:
+                return False
+            if not _sim_wait(lambda: self._value > 0, timeout, sys._getframe(1), self):
+                return False
+        self._value -= 1
+        return True
+
+    def release(self, n=1):
+        if self._bounded and self._value + n > self._initial:
+            raise ValueError('Semaphore released too many times')
+        self._value += n
+        s = ACTIVE[0]
+        if s is not None:
+            s.unblock(self)
+
+    def __enter__(self):
+        self.acquire()
+        return self
+
+    def __exit__(self, *a):
+        self.release()
+        return False
+
+
+class SimCondition(object):
+    """threading.Condition for the system under test"""
+
+    def __init__(self, lock=None):
+        self._lock = lock if lock is not None else SimLock(threading.RLock())
+        self._waiters = []
+
+    def acquire(self, *a, **k):
+        return self._lock.acquire(*a, **k)
+
+    def release(self):
+        return self._lock.release()
+
+    def __enter__(self):
+        self._lock.acquire()
+        return self
+
+    def __exit__(self, *a):
+        self._lock.release()
+        return False
+
+    def wait(self, timeout=None):
+        token = [False]
+        self._waiters.append(token)
+        self._lock.release()
+        try:
+            ok = _sim_wait(lambda: token[0], timeout, sys._getframe(1), self)
+        finally:
+            self._lock.acquire()
+            if token in self._waiters:
+                self._waiters.remove(token)
+        return ok
+
+    def wait_for(self, predicate, timeout=None):
+        result = predicate()
+        n = 0
+        while not result:
+            n += 1
+            if timeout is not None and n > 50:
+                break
+            self.wait(timeout)
+            result = predicate()
+        return result
+
+    def notify(self, n=1):
+        for token in self._waiters[:n]:
+            token[0] = True
+        del self._waiters[:n]
+        s = ACTIVE[0]
+        if s is not None:
+            s.unblock(self)
+
+    def notify_all(self):
+        self.notify(len(self._waiters))
+
+    notifyAll = notify_all
 
 
 def wrap_module_locks(modules):
@@ -181,6 +298,10 @@ def wrap_module_locks(modules):
             return getattr(threading, name)
     proxy = _ThreadingProxy('threading')
     proxy.Lock, proxy.RLock, proxy.Event = sim_lock, sim_rlock, SimEvent
+    proxy.Semaphore = SimSemaphore
+    proxy.BoundedSemaphore = lambda value=1: SimSemaphore(value, bounded=True)
+    proxy.Condition = SimCondition
+    sem_types = (threading.Semaphore, threading.BoundedSemaphore)
     for mod in modules:
         for key, val in list(vars(mod).items()):
             if val is real_lock:
@@ -189,6 +310,23 @@ def wrap_module_locks(modules):
                 setattr(mod, key, sim_rlock)
             elif val is threading.Event:
                 setattr(mod, key, SimEvent)
+            elif val is threading.Semaphore:
+                setattr(mod, key, SimSemaphore)
+            elif val is threading.BoundedSemaphore:
+                setattr(mod, key, proxy.BoundedSemaphore)
+            elif val is threading.Condition:
+                setattr(mod, key, SimCondition)
+            elif isinstance(val, sem_types):
+                setattr(mod, key, SimSemaphore(val._value, bounded=isinstance(val, threading.BoundedSemaphore)))
+                n[0] += 1
+            elif isinstance(val, threading.Event):
+                ev = SimEvent()
+                ev._flag = val.is_set()
+                setattr(mod, key, ev)
+                n[0] += 1
+            elif isinstance(val, threading.Condition):
+                setattr(mod, key, SimCondition())
+                n[0] += 1
             elif val is threading:
                 setattr(mod, key, proxy)
     for mod in modules:
@@ -428,11 +566,17 @@ class Sched(object):
         self.on_step = None              # hook(tid, frame) - must be deterministic & cheap
         self.budget_hit = False
         self.lock_waits = 0
+        self.blocked = {}
         self._deferred = [None] * nthreads
         self._unsafe = {}
 
     # -- helpers ----------------------------------------------------------
     def _others(self, tid):
+        if self.blocked:
+            return [t for t in self._others_raw(tid) if t not in self.blocked]
+        return self._others_raw(tid)
+
+    def _others_raw(self, tid):
         st = self.stalled
         if st:
             step = self.steps
@@ -504,14 +648,26 @@ class Sched(object):
             u = self._unsafe[code] = _with_exit_offsets(code)
         return frame.f_lasti in u
 
-    def _blocked_on_lock(self, tid, frame):
-        """tid (holding the baton) found a SUT lock taken: run somebody else, then retry"""
-        others = [t for t in range(self.n) if t != tid and not self.done[t]]
+    def unblock(self, resource):
+        """a lock / semaphore / event / condition of the system under test was released or signalled"""
+        for t in [t for t, r in self.blocked.items() if r is resource]:
+            del self.blocked[t]
+
+    def _blocked_on_lock(self, tid, frame, resource=None):
+        """tid (holding the baton) must wait for a synchronisation object of the system under test: it
+        is not runnable until that object is released / signalled (resource given) or, for timed waits
+        (resource None), merely yields.  Somebody else runs; on return the caller retries."""
+        if resource is not None:
+            self.blocked[tid] = resource
+        others = [t for t in range(self.n) if t != tid and not self.done[t] and t not in self.blocked]
         if not others:
-            raise RuntimeError('dead-lock in the system under test: thread %d waits for a lock nobody can release' % tid)
+            self.blocked.pop(tid, None)
+            raise RuntimeError('dead-lock in the system under test: thread %d waits for a lock / event that no '
+                               'runnable thread can release' % tid)
         self.lock_waits += 1
-        if self.lock_waits > 200000:
-            raise RuntimeError('dead-lock / live-lock in the system under test on a module-level lock')
+        if self.lock_waits > 2000000:
+            self.blocked.pop(tid, None)
+            raise RuntimeError('live-lock in the system under test on a synchronisation object')
         n = self.ycount[tid] = self.ycount[tid] + 1
         tgt = self.decider.at_yield(tid, n, others, self.steps)
         if tgt == tid:
@@ -519,6 +675,7 @@ class Sched(object):
             self.decider.switches.append([tid, n, tgt])
         self.log.add('lockwait', tid, tgt)
         self._switch(tid, tgt, frame)
+        self.blocked.pop(tid, None)
 
     def _switch(self, tid, tgt, frame):
         site = (os.path.basename(frame.f_code.co_filename), frame.f_lineno or 0)
@@ -580,7 +737,8 @@ class Sched(object):
         finally:
             sys.settrace(None)
             self.done[tid] = True
-            others = [t for t in range(self.n) if not self.done[t]]
+            others = [t for t in range(self.n) if not self.done[t] and t not in self.blocked] or \
+                [t for t in range(self.n) if not self.done[t]]
             if others:
                 tgt = self.decider.at_finish(tid, others)
                 self.log.add('fin', tid, tgt)
